@@ -91,7 +91,7 @@ def hist_term(r):
     binds = coq_list(['(%s, %s, %s, %s, %s)' % (nat(b['c']), nat(b['loc']), nat(b['src']), nat(b['ori']), N(10 ** int(b.get('scale', 0))))
                       for b in (s.get('binds') or [])])
     steps = coq_list(['{| os_op := %s; os_class := %s; os_code := %s; os_obs := %s |}' % (
-        op_term(st['op']), nat(st['class']), N(st['code']), coq_list([cobs_term(o) for o in st['obs']])) for st in r['steps']])
+        op_term(st['op']), nat(st['class']), N(st['code']), coq_list([cobs_term(o) for o in st['obs']])) for st in (r['steps'] or [])])
     return '{| h_u := %s; h_binds := %s; h_init := %s; h_steps := %s |}' % (
         U, binds, coq_list([cobs_term(o) for o in r['init']]), steps)
 
